@@ -30,7 +30,8 @@
 (*                    its mode; existing -> its owner; ENOENT -> 0600 and  *)
 (*                    the process's uid/gid; other errors fail the save    *)
 (*   Chmod, Chown     Write: os.Chmod(tmp, mode); os.Chown(tmp, uid, gid)  *)
-(*                    only "if uid > 0 && gid > 0", its error ignored      *)
+(*                    whenever the ids are known ("uid >= 0 && gid >= 0",  *)
+(*                    i.e. always on unix, since c56fb15), error ignored   *)
 (*   Rename           Write: os.Rename(tmp, fullname)                      *)
 (*   Unlink           Write: deferred os.Remove(tmp) (ENOENT after a       *)
 (*                    successful rename)                                   *)
@@ -52,14 +53,19 @@
 (*    on a descriptor just opened and the final unlink are not failed (the *)
 (*    code would leak the temp file on the first: noted in design.d/X02.md)*)
 (*  - the pre-check of the directory by MkdirAll is one StatDir step       *)
-(*  - Variant is a switch: "code" = the code as it is (baseline of every   *)
-(*    config that must hold and of the trace binding).  The other values   *)
-(*    are DESIGN-LEVEL MUTANTS kept to show that every invariant can fail: *)
-(*    "inplace" (write the config path directly), "noremove" (no deferred  *)
-(*    remove), "tmp666" (temp file created 0666 & ~umask), "chmodlate"     *)
-(*    (chmod after the rename), "nochmod" (existing mode not carried       *)
-(*    over), "ownerfix" (chown whenever the owner is known: the repair of  *)
-(*    finding X02-1; with it S3-owner-kept holds for root-group files)     *)
+(*  - Variant is a switch: "code" = the code as it is since /repo c56fb15  *)
+(*    (baseline of every config that must hold and of the trace binding):  *)
+(*    the temp file is chowned to the owner of the file it replaces        *)
+(*    whenever that owner is known.  "asfound" keeps the guard as it was   *)
+(*    found ("if uid > 0 && gid > 0": no chown when the owner OR the group *)
+(*    of the existing file is root): finding X02-1; its config             *)
+(*    X02_mc_asfound_owner.cfg carries the expected counterexample         *)
+(*    (S3-owner-kept) and explains the seed fixrev-X02-owner-root-group.   *)
+(*    The other values are DESIGN-LEVEL MUTANTS kept to show that every    *)
+(*    invariant can fail: "inplace" (write the config path directly),      *)
+(*    "noremove" (no deferred remove), "tmp666" (temp file created 0666 &  *)
+(*    ~umask), "chmodlate" (chmod after the rename), "nochmod" (existing   *)
+(*    mode not carried over)                                               *)
 (***************************************************************************)
 EXTENDS Integers, Sequences, FiniteSets, TLC, ConfFileObl
 
@@ -249,7 +255,7 @@ Stat(w) ==          \* os.Stat(fullname)
                            ![w].gid = IF fs.cfg.kind = "none" THEN Sc.id.gid ELSE fs.cfg.gid]
   /\ UNCHANGED <<fs, ctl>>
 
-ChownWanted(w) == IF Variant = "ownerfix" THEN TRUE ELSE pr[w].uid > 0 /\ pr[w].gid > 0
+ChownWanted(w) == IF Variant = "asfound" THEN pr[w].uid > 0 /\ pr[w].gid > 0 ELSE TRUE
 ChownWorks(w) == /\ ~FaultAt(w, "chown", 0)
                  /\ Sc.id.uid = 0 \/ (pr[w].uid = fs.tmp[w].uid /\ pr[w].gid = fs.tmp[w].gid)
 AfterChmod(w) == IF ChownWanted(w) THEN "chown" ELSE "rename"
